@@ -25,10 +25,10 @@
 (*                         planned set is empty                               *)
 (*   TieBreakByOrder       of two equally loaded shards scraping the same target  *)
 (*                         in the same state, the later one drops its copy       *)
-(*   TooBigSkipped         relief passes over a too big target (its size, if it was counted,  *)
-(*                         is not part of what the relief can shed; head relief with one     *)
-(*                         passed over reports no needed room) instead of giving the shard   *)
-(*                         up, so that what is moved does not depend on the order            *)
+(*   TooBigSkipped         relief leaves too big targets out of what it has to shed from the   *)
+(*                         start and passes over them (head relief of a shard holding one     *)
+(*                         reports no needed room) instead of giving the shard up when it      *)
+(*                         meets one, so that whether it acts does not depend on the order      *)
 (*   ZeroNeedsPlace        an unplaced target whose estimate is 0 / 0 counts as needed  *)
 (*                         space (1), so that a shard is requested for it                *)
 (*   RevertOrphanTransfer  an in_transfer copy (scraped MinWait times) that no other   *)
@@ -195,6 +195,8 @@ Gc ==
 (* A.5 relief pass 1: process series.  tot = -1 means "inner loop not started" *)
 ProcTooBig(e) == e.total > MaxProc
 ProcElig(e)   == Eligible(e) /\ e.total # 0
+\* what the relief of shard i has to shed: the counted targets, without those that are too big (TooBigSkipped)
+ShedProc(i) == TotalProc(i) - (IF TooBigSkipped THEN SumOver(pl[i], {t \in DOMAIN pl[i] : ProcTooBig(pl[i][t])}, "total") ELSE 0)
 NextShardP == /\ cur' = cur + 1 /\ vis' = {} /\ tot' = -1
 AllevP ==
   /\ pc = "allevP"
@@ -206,9 +208,9 @@ AllevP ==
        THEN NextShardP /\ UNCHANGED <<pc, pl, ld, need>>
      ELSE IF tot = -1
        THEN \* alleviateShardProcessSeries entry
-            IF TotalProc(cur) <= MaxProc
+            IF ShedProc(cur) <= MaxProc
               THEN NextShardP /\ UNCHANGED <<pc, pl, ld, need>>
-              ELSE tot' = TotalProc(cur) /\ UNCHANGED <<pc, cur, vis, pl, ld, need>>
+              ELSE tot' = ShedProc(cur) /\ UNCHANGED <<pc, cur, vis, pl, ld, need>>
      ELSE LET cand == {t \in (DOMAIN pl[cur]) \ vis : ProcElig(pl[cur][t]) \/ (TooBigFirst /\ ProcTooBig(pl[cur][t]))} IN
           IF tot <= MaxProc \/ cand = {}
             THEN /\ need' = [need EXCEPT !.proc = @ + (IF tot > MaxProc THEN tot - MaxProc ELSE 0)]
@@ -219,7 +221,7 @@ AllevP ==
                    IN IF ProcTooBig(e)
                         THEN IF TooBigSkipped
                                THEN \* it stays whatever else is moved: not part of what this relief can shed
-                                    tot' = tot - (IF ProcElig(e) THEN e.total ELSE 0) /\ vis' = vis \cup {t} /\ UNCHANGED <<pc, cur, pl, ld, need>>
+                                    vis' = vis \cup {t} /\ UNCHANGED <<pc, cur, tot, pl, ld, need>>
                                ELSE NextShardP /\ UNCHANGED <<pc, pl, ld, need>>   \* return 0
                       ELSE IF dst = {}
                         THEN vis' = vis \cup {t} /\ UNCHANGED <<pc, cur, tot, pl, ld, need>>
@@ -231,6 +233,7 @@ AllevP ==
 
 (* A.5 relief pass 2: head series *)
 HeadTooBig(e) == e.series > MaxHead \/ (HeadReliefChecksProc /\ e.total > MaxProc)
+ShedHead(i) == TotalHead(i) - (IF TooBigSkipped THEN SumOver(pl[i], {t \in DOMAIN pl[i] : HeadTooBig(pl[i][t])}, "series") ELSE 0)
 Rate(x, num) == (x * num) \div 10        \* int64(float64(x) * (num/10)) for the x in use
 HeadExp(h) ==   \* expected head series for running head h, or -1 if no threshold matches
   IF h >= Rate(MaxHead, 18) THEN 0
@@ -248,15 +251,15 @@ AllevH ==
      ELSE IF tot = -1
        THEN \* alleviateShardHeadSeries entry; the expectation is fixed at entry (sps holds it)
             LET ex == HeadExp(ld[cur].head) IN
-            IF TotalHead(cur) <= ex
+            IF ShedHead(cur) <= ex
               THEN NextShardP /\ UNCHANGED <<pc, pl, ld, need, sps>>
-              ELSE tot' = TotalHead(cur) /\ sps' = <<ex>> /\ UNCHANGED <<pc, cur, vis, pl, ld, need>>
+              ELSE tot' = ShedHead(cur) /\ sps' = <<ex>> /\ UNCHANGED <<pc, cur, vis, pl, ld, need>>
      ELSE LET ex   == sps[1]
               cand == {t \in (DOMAIN pl[cur]) \ vis : Eligible(pl[cur][t]) \/ (TooBigFirst /\ HeadTooBig(pl[cur][t]))} IN
           IF tot <= ex \/ cand = {}
             THEN \* the expectation was chosen from a load the too big target is part of: with one passed over, what is left
                  \* is not reported as needed room
-                 /\ need' = [need EXCEPT !.head = @ + (IF tot > ex /\ ~(TooBigSkipped /\ \E t \in vis : HeadTooBig(pl[cur][t])) THEN tot - ex ELSE 0)]
+                 /\ need' = [need EXCEPT !.head = @ + (IF tot > ex /\ ~(TooBigSkipped /\ \E t \in DOMAIN pl[cur] : HeadTooBig(pl[cur][t])) THEN tot - ex ELSE 0)]
                  /\ NextShardP /\ UNCHANGED <<pc, pl, ld, sps>>
             ELSE \E t \in cand :
                    LET e == pl[cur][t]
@@ -265,7 +268,7 @@ AllevH ==
                                  /\ (HeadReliefChecksProc => ProcRoom(ld[o], e))}
                    IN IF HeadTooBig(e)
                         THEN IF TooBigSkipped
-                               THEN tot' = tot - (IF Eligible(e) THEN e.series ELSE 0) /\ vis' = vis \cup {t} /\ UNCHANGED <<pc, cur, pl, ld, need, sps>>
+                               THEN vis' = vis \cup {t} /\ UNCHANGED <<pc, cur, tot, pl, ld, need, sps>>
                                ELSE NextShardP /\ UNCHANGED <<pc, pl, ld, need, sps>>   \* return 0
                       ELSE IF dst = {}
                         THEN vis' = vis \cup {t} /\ UNCHANGED <<pc, cur, tot, pl, ld, need, sps>>
